@@ -31,9 +31,16 @@ def apply_hint(ex, info, name, st):
         return
     check_hint_shape(cl)
     try:
-        st.assume(eval_clause(ex, info, cl, st, {}))
+        f_ = eval_clause(ex, info, cl, st, {})
+        import os
+        if os.environ.get("PYVC_DEBUG_HINTS"):
+            print(f"[hint {name}: {str(f_)[:300]}]")
+        st.assume(f_)
     except OutOfReach as e:
         if "no value for parameter" in str(e) or "unbound" in str(e):
+            import os
+            if os.environ.get("PYVC_DEBUG_HINTS"):
+                print(f"[hint {name} skipped: {e}]")
             return  # the hint's locals do not exist on this path
         raise
 
@@ -197,6 +204,7 @@ def verify_function(info: ContractInfo) -> FunctionResult:
     res.source_hash = hashlib.sha256(ast.dump(fnode).encode()).hexdigest()[:16]
     ctx = Ctx(f"{info.relpath}:{info.qualname}", REGISTRY)
     ctx.rng_used = False
+    ctx.revealed = set(info.opts.get("reveal", ()))  # opaque spec functions whose definition this proof may unfold
     ex = Exec(ctx, info.relpath, contract=info)
     ex.max_unfold = int(info.opts.get("unfold", 2))
     cls = info.qualname.split(".")[0] if "." in info.qualname else None
